@@ -7,7 +7,7 @@ from common import hx
 from eth_hash.auto import keccak
 
 ID = "C05"
-LEAN_IMPORTS = ["PyTrie.Props.C05", "PyTrie.Props.C05Batch"]
+LEAN_IMPORTS = ["PyTrie.Props.C05", "PyTrie.Props.C05Batch", "PyTrie.Props.NonVacuity"]
 THEOREMS = [
     "PyTrie.Props.C05.abort_restores_world",
     "PyTrie.Props.C05.batch_ops_leave_base",
@@ -22,6 +22,13 @@ THEOREMS = [
     "PyTrie.Props.C05.np_batch_begin",
     "PyTrie.Props.C05.np_batch_op",
     "PyTrie.Props.C05.np_batch_commit",
+    "PyTrie.Props.NonVacuity.c05_begin",
+    "PyTrie.Props.NonVacuity.c05_op",
+    "PyTrie.Props.NonVacuity.c05_world_inv",
+    "PyTrie.Props.NonVacuity.c05_commit",
+    "PyTrie.Props.NonVacuity.c05_np_begin",
+    "PyTrie.Props.NonVacuity.c05_np_inv",
+    "PyTrie.Props.NonVacuity.c05_np_commit",
 ]
 RULE = ("prior history, then squash_changes blocks with every exit kind: normal, an exception after n of the "
         "block's operations (every n), and - for non-pruning tries - the n-th database write of the commit failing "
